@@ -131,7 +131,13 @@ namespace Pistache::Http
         for (const auto& idlePeer : idlePeers)
         {
             ResponseWriter response(Http::Version::Http11, this, static_cast<Http::Handler*>(handler_.get()), idlePeer);
-            response.send(Http::Code::Request_Timeout).then([=](ssize_t) { removePeer(idlePeer); }, [=](std::exception_ptr) { removePeer(idlePeer); });
+            // the connection is closed by the framework: the handler must be told,
+            // exactly as when the peer goes away by itself
+            auto drop = [=]() {
+                handler_->onDisconnection(idlePeer);
+                removePeer(idlePeer);
+            };
+            response.send(Http::Code::Request_Timeout).then([=](ssize_t) { drop(); }, [=](std::exception_ptr) { drop(); });
         }
     }
 
